@@ -3,7 +3,8 @@
    (formatter output accepted by the YAML loader) is executed, not modelled:
    see the correspondence / oracle of this check. *)
 From Coq Require Import List NArith ZArith QArith Qabs Qround Bool.
-From PG Require Import Thermo.YamlRound Thermo.YamlRound_proofs.
+From Coq Require Import Reals.
+From PG Require Import Thermo.YamlRound Thermo.YamlRound_proofs Thermo.YamlRound_real.
 Import ListNotations.
 
 (* what "to the six significant digits written" means: relative error <= 5e-6 *)
@@ -25,3 +26,16 @@ Example C18_round6_example : is_round6 (12345678 # 10000) (123457 # 100).
 Proof.
   exists 2%Z, 123457%Z. repeat split; vm_compute; intros; discriminate.
 Qed.
+
+(* value level, over the reals: a value written in ANY unit of positive SI size to relative error eps reads back in SI to the
+   same relative error (choosing other units loses nothing) ... *)
+Theorem C18_unit_scaling_keeps_digits : forall x f r eps : R, (0 < f)%R ->
+  (Rabs (r - x / f) <= eps * Rabs (x / f))%R -> (Rabs (r * f - x) <= eps * Rabs x)%R.
+Proof. exact scale_round. Qed.
+(* ... and a non-dimensional value recomputed from two written values (H / (R T_ref), S / R, Cp / R with rounded T_ref) is off
+   by at most 2 eps / (1 - eps): "six significant digits" of the dimensional form, twice *)
+Theorem C18_quotient_of_written_values : forall a b a' b' eps : R, (0 <= eps < 1)%R -> b <> 0%R ->
+  (Rabs (a' - a) <= eps * Rabs a)%R -> (Rabs (b' - b) <= eps * Rabs b)%R ->
+  b' <> 0%R /\ (Rabs (a' / b' - a / b) <= (2 * eps / (1 - eps)) * Rabs (a / b))%R.
+Proof. exact quotient_round. Qed.
+Print Assumptions C18_quotient_of_written_values.
